@@ -156,6 +156,33 @@ def check_grid_case(case):
                 pass
             except Exception as e:
                 bad.append(("inverse_single", f"inverse raised {type(e).__name__}: {e}"))
+        # the transform called again on the same tensor object after an in-place edit, forward
+        # and inverse (torch.distributions transforms can cache on tensor identity)
+        try:
+            setp(pts[0])
+            x = model._internal_heights.tensor.detach().clone()
+            y0 = model.transform(x).detach().clone()
+            setp(pts[-1])
+            x1 = model._internal_heights.tensor.detach().clone()
+            y1 = model.transform(x1).detach().clone()
+            x.copy_(x1)
+            y = model.transform(x)
+            if float((y - y1).abs().max()) > 1e-12:
+                bad.append(("inplace_forward", f"transform(x) after x was edited in place from "
+                                               f"{pts[0]} to {pts[-1]}: {y.tolist()} expected {y1.tolist()}"))
+            try:
+                yy = y0.clone()
+                model.transform.inv(yy)
+                yy.copy_(y1)
+                xr = model.transform.inv(yy)
+                if float((xr - x1).abs().max()) > 1e-10:
+                    bad.append(("inplace_inverse", f"inv(y) after y was edited in place: {xr.tolist()} "
+                                                   f"expected {x1.tolist()}"))
+            except NotImplementedError:
+                pass
+            nev += 2
+        except Exception as e:
+            bad.append(("inplace_forward", f"raised {type(e).__name__}: {str(e)[:160]}"))
         # the whole lattice as one batch
         setp(pts)
         H = model.node_heights.detach().numpy()
@@ -186,7 +213,8 @@ def check_grid_case(case):
 
 # -- histories -----------------------------------------------------------------------------
 
-OPS = ("cpu", "to_f64", "to_cpu", "set_a", "set_b", "read")
+# inplace_*: the optimiser idiom - the tensor is edited in place, then the change is announced
+OPS = ("cpu", "to_f64", "to_cpu", "set_a", "set_b", "read", "inplace_a", "inplace_b")
 
 
 def hist_cases(tier):
@@ -214,7 +242,7 @@ def check_history_case(case):
     nseq = 0
     for d in range(1, case["depth"] + 1):
         for seq in itertools.product(OPS, repeat=d):
-            if "cpu" not in seq and "to_f64" not in seq and "to_cpu" not in seq:
+            if not any(o in seq for o in ("cpu", "to_f64", "to_cpu", "inplace_a", "inplace_b")):
                 continue
             nseq += 1
             try:
@@ -237,6 +265,17 @@ def check_history_case(case):
                         else:
                             dic["tree.ratios"].tensor = t[:-1]
                             dic["tree.root_height"].tensor = t[-1:]
+                    elif op in ("inplace_a", "inplace_b"):
+                        cur = pa if op == "inplace_a" else pb
+                        t = torch.tensor(cur)
+                        names = ["tree.shifts"] if case["kind"] == "shift" else [
+                            "tree.ratios", "tree.root_height"]
+                        parts = [t] if case["kind"] == "shift" else [t[:-1], t[-1:]]
+                        with torch.no_grad():
+                            for nm, part in zip(names, parts):
+                                dic[nm].tensor.copy_(part)
+                        for nm in names:
+                            dic[nm].fire_parameter_changed()
                     where = f"after {list(seq[:i + 1])}"
                     if type(model.transform).__name__ != klass:
                         return [("parameterisation_changed",
